@@ -215,6 +215,29 @@ func resetGlobals() {
 	stdlib.DisableLoad = false
 }
 
+// hostZones: the zone of the machine rare runs on. The property speaks of the
+// requested zone (default utc); what the host's own zone is must not show.
+// time.Unix() yields values in time.Local, so a conversion that is skipped
+// "because the zone is UTC anyway" is only wrong on a host that is not on
+// UTC - which this sandbox is. The host zone is therefore part of the case
+// (derived from the instant, so that a replay sees the same one).
+var hostZones = func() []*time.Location {
+	zs := []*time.Location{time.UTC, time.FixedZone("HOST+0530", 5*3600+1800), time.FixedZone("HOST-0900", -9*3600)}
+	if ny, err := time.LoadLocation("America/New_York"); err == nil {
+		zs = append(zs, ny)
+	}
+	return zs
+}()
+
+func setHostZone(sel int64) string {
+	if sel < 0 {
+		sel = -sel
+	}
+	z := hostZones[int(sel%int64(len(hostZones)))]
+	time.Local = z
+	return z.String()
+}
+
 // ---------------------------------------------------------------------------
 // calendar
 
@@ -251,6 +274,8 @@ func mismatch(expr, in, got, want, why string) error {
 
 func checkCalendar(c Case) error {
 	resetGlobals()
+	c.Obs.Label(true, "host-zone:"+setHostZone(c.Unix/7))
+	defer func() { time.Local = time.UTC }()
 	loc, trans, ok := lookup(c.Zone)
 	if !ok {
 		pbt.Exclude("replayed-zone-not-on-host")
